@@ -269,10 +269,20 @@ impl KrpcSocket {
             .map(|to| compare_socket_addr(&to, from))
         {
             Some(true) => {
+                // A request that already timed out is consumed (its round trip time is still
+                // learned from), but its response is not expected anymore: whoever sent the
+                // request already gave up on it. Otherwise whether a late response has any effect
+                // would depend on when `cleanup()` happened to compact the requests.
+                let timedout = self
+                    .inflight_requests
+                    .get(message.transaction_id)
+                    .is_none();
+
                 if self
                     .inflight_requests
                     .remove(message.transaction_id)
                     .is_some()
+                    && !timedout
                 {
                     return true;
                 }
